@@ -33,6 +33,7 @@ type HarnessSpec struct {
 	ExactReal bool   `json:"exact_real,omitempty"`
 	FeasMs    int    `json:"feas_timeout_ms,omitempty"`
 	NoUF      bool   `json:"no_uf,omitempty"`
+	LatticeFirst bool `json:"lattice_first,omitempty"`
 }
 
 type Spec struct {
@@ -265,7 +266,7 @@ func cmdRun(args []string) int {
 			to = 20000
 		}
 		return &interp.Config{InitPkgs: interp.DefaultInitPkgs, TrackPkgs: []string{"github.com/paulmach/orb", "github.com/paulmach/protoscan"},
-			MaxSteps: h.MaxSteps, FloatFP: h.FloatFP, TimeoutMs: to, SolverBin: h.Solver, MaxPaths: h.MaxPaths, Trace: *trace, MergeFuncs: mergeSet, ExactReal: h.ExactReal, FeasMs: h.FeasMs, UFStubs: ufFor(h, ufSet)}
+			MaxSteps: h.MaxSteps, FloatFP: h.FloatFP, TimeoutMs: to, SolverBin: h.Solver, MaxPaths: h.MaxPaths, Trace: *trace, MergeFuncs: mergeSet, ExactReal: h.ExactReal, FeasMs: h.FeasMs, UFStubs: ufFor(h, ufSet), LatticeFirst: h.LatticeFirst}
 	}
 	// enumerate jobs
 	var jobs []job
